@@ -788,3 +788,193 @@ func TierBCrash(r *ev.Run) {
 		}
 	}
 }
+
+// ---------------------------------------------------------------------------
+// C12 with real processes: the local job manager's reservations, observed as
+// the property's own observation point says - "overlap of job execution
+// intervals weighted by the reservations recorded in _jobinfo".
+
+// BResCase is the replayable unit of the real-binary resource phase.
+type BResCase struct {
+	Tier    string       `json:"tier"`
+	Kind    string       `json:"kind"` // "resources"
+	Cores   int          `json:"localcores"`
+	MemGB   int          `json:"localmem"`
+	Reqs    [][2]float64 `json:"requests"` // (threads, mem_gb) per stage; 0 = default
+	Mapped  int          `json:"mapped_forks,omitempty"`
+	Program string       `json:"program_mro,omitempty"`
+}
+
+func resProgram(c BResCase) *progen.Program {
+	p := &progen.Program{}
+	top := &progen.Pipeline{Name: "TOP", Ins: []progen.Param{{T: progen.IntT, Name: "n"}}}
+	if c.Mapped > 0 {
+		st := &progen.Stage{Name: "JOB0", Fn: "ADD", Ins: []progen.Param{{T: progen.IntT, Name: "a"}, {T: progen.IntT, Name: "b"}},
+			Outs: []progen.Param{{T: progen.IntT, Name: "sum"}}, Threads: c.Reqs[0][0], MemGB: c.Reqs[0][1]}
+		p.Stages = append(p.Stages, st)
+		var elems []*progen.Val
+		for i := 0; i < c.Mapped; i++ {
+			elems = append(elems, progen.Int(int64(i)))
+		}
+		top.Calls = append(top.Calls, &progen.Call{Callee: "JOB0", Map: true, Binds: []progen.Bind{
+			{Name: "a", E: progen.SplitE(progen.Lit(progen.Arr(elems...)))}, {Name: "b", E: progen.Self("n")}}})
+		top.Outs = append(top.Outs, progen.Param{T: progen.ArrayOf(progen.IntT), Name: "r0"})
+		top.Ret = append(top.Ret, progen.Bind{Name: "r0", E: progen.Ref("JOB0", "sum")})
+	} else {
+		for i, rq := range c.Reqs {
+			name := fmt.Sprintf("JOB%d", i)
+			st := &progen.Stage{Name: name, Fn: "ADD", Ins: []progen.Param{{T: progen.IntT, Name: "a"}, {T: progen.IntT, Name: "b"}},
+				Outs: []progen.Param{{T: progen.IntT, Name: "sum"}}, Threads: rq[0], MemGB: rq[1]}
+			p.Stages = append(p.Stages, st)
+			top.Calls = append(top.Calls, &progen.Call{Callee: name, Binds: []progen.Bind{
+				{Name: "a", E: progen.Self("n")}, {Name: "b", E: progen.Lit(progen.Int(int64(i)))}}})
+			top.Outs = append(top.Outs, progen.Param{T: progen.IntT, Name: fmt.Sprintf("r%d", i)})
+			top.Ret = append(top.Ret, progen.Bind{Name: fmt.Sprintf("r%d", i), E: progen.Ref(name, "sum")})
+		}
+	}
+	p.Pipelines = []*progen.Pipeline{top}
+	p.Top = &progen.Call{Callee: "TOP", Binds: []progen.Bind{{Name: "n", E: progen.Lit(progen.Int(5))}}}
+	return p
+}
+
+func evalBRes(c BResCase) (viol []string, class string) {
+	p := resProgram(c)
+	ref, err := progen.Interpret(p)
+	if err != nil {
+		return nil, "reference: " + err.Error()
+	}
+	// every job's stage code takes 60 ms, so that jobs overlap whenever the
+	// job manager lets them
+	slow := map[string]int{}
+	if c.Mapped > 0 {
+		for i := 0; i < c.Mapped; i++ {
+			slow[fmt.Sprintf("ID.%s.TOP.JOB0.fork%d.chnk0.main", Psid, i)] = 60
+		}
+	} else {
+		for i := range c.Reqs {
+			slow[fmt.Sprintf("ID.%s.TOP.JOB%d.fork0.chnk0.main", Psid, i)] = 60
+		}
+	}
+	br := RunB(p, BOptions{Cores: c.Cores, MemGB: c.MemGB, Slow: slow, Timeout: 60 * time.Second})
+	if br.Err != "" {
+		return nil, "not-started"
+	}
+	defer br.Cleanup()
+	if br.TimedOut {
+		return []string{fmt.Sprintf("every request fits the limits (cores %d, memory %d GB after clamping) but mrp did not finish within 60 s", c.Cores, c.MemGB)}, "stalled"
+	}
+	if br.Exit != 0 {
+		fq, log := ParseFailure(br.Console)
+		return []string{fmt.Sprintf("mrp ended with exit status %d: %s: %s", br.Exit, fq, firstLine(log))}, "failed"
+	}
+	if len(br.Obs) != len(ref.Jobs) {
+		viol = append(viol, fmt.Sprintf("%d jobs executed, the program denotes %d", len(br.Obs), len(ref.Jobs)))
+	}
+	maxT, maxM := 0.0, 0.0
+	for i := range br.Obs {
+		o := &br.Obs[i]
+		if o.Threads <= 0 || o.Threads > float64(c.Cores) {
+			viol = append(viol, fmt.Sprintf("job %s runs with a reservation of %v threads recorded in _jobinfo (limit %d)", o.Key, o.Threads, c.Cores))
+		}
+		if o.MemGB <= 0 || o.MemGB > float64(c.MemGB) {
+			viol = append(viol, fmt.Sprintf("job %s runs with a reservation of %v GB recorded in _jobinfo (limit %d)", o.Key, o.MemGB, c.MemGB))
+		}
+		// the jobs whose stage code is running at the instant this one starts
+		t, m := 0.0, 0.0
+		var with []string
+		for k := range br.Obs {
+			q := &br.Obs[k]
+			if q.StartNs <= o.StartNs && o.StartNs < q.EndNs {
+				t += q.Threads
+				m += q.MemGB
+				with = append(with, q.Key)
+			}
+		}
+		if t > maxT {
+			maxT = t
+		}
+		if m > maxM {
+			maxM = m
+		}
+		if t > float64(c.Cores)+1e-9 {
+			viol = append(viol, fmt.Sprintf("%v threads reserved by simultaneously running jobs %v exceed --localcores=%d", t, with, c.Cores))
+		}
+		if m > float64(c.MemGB)+1e-9 {
+			viol = append(viol, fmt.Sprintf("%v GB reserved by simultaneously running jobs %v exceed --localmem=%d", m, with, c.MemGB))
+		}
+	}
+	return viol, fmt.Sprintf("ok:peak-threads=%v:peak-mem=%v", maxT, maxM)
+}
+
+// TierBResources is the real-binary phase of C12 (run in the parent process,
+// cases in parallel).
+func TierBResources(r *ev.Run) {
+	if os.Getenv("VERIF_NO_TIERB") != "" {
+		return
+	}
+	if _, err := TierBRoot(); err != nil {
+		fmt.Println(err)
+		os.Exit(2)
+	}
+	deadline := tierBDeadline(r, 40*time.Second, 8*time.Minute)
+	shapes := [][2]float64{{0, 0}, {1, 1}, {2, 1}, {1, 2}, {2, 2}, {3, 1}, {1, 3}, {0.5, 0.5}, {-1, 1}}
+	var cases []BResCase
+	n := len(shapes)
+	for i := 0; i < n; i++ {
+		for j := i; j < n; j++ {
+			for k := j; k < n; k++ {
+				if !r.Thorough() && k >= 7 && (i >= 7 || j >= 7) {
+					continue
+				}
+				cases = append(cases, BResCase{Tier: "B", Kind: "resources", Cores: 2, MemGB: 2, Reqs: [][2]float64{shapes[i], shapes[j], shapes[k]}})
+			}
+		}
+	}
+	for _, s := range shapes {
+		cases = append(cases, BResCase{Tier: "B", Kind: "resources", Cores: 2, MemGB: 2, Reqs: [][2]float64{s}, Mapped: 4})
+		cases = append(cases, BResCase{Tier: "B", Kind: "resources", Cores: 3, MemGB: 4, Reqs: [][2]float64{s}, Mapped: 5})
+	}
+	ev.ParallelFor(len(cases), func(i int) bool {
+		if time.Now().After(deadline) {
+			r.Cap("time budget of the real-binary phase reached")
+			return false
+		}
+		c := cases[i]
+		viol, class := evalBRes(c)
+		if strings.HasPrefix(class, "reference") || class == "not-started" {
+			r.Eval("")
+			r.Outcome("tierb-" + class)
+			return true
+		}
+		r.Eval(fmt.Sprintf("B|res|%d|%d|%v|%d", c.Cores, c.MemGB, c.Reqs, c.Mapped))
+		r.Add("tierb_runs", 1)
+		if len(viol) == 0 {
+			r.Outcome("tierb-" + class)
+			if i%37 == 0 {
+				r.Sample(map[string]interface{}{"tier": "real binaries", "localcores": c.Cores, "localmem": c.MemGB, "requests(threads,mem_gb)": c.Reqs, "mapped_forks": c.Mapped, "observed": class})
+			}
+			return true
+		}
+		v2, _ := evalBRes(c)
+		if len(v2) == 0 {
+			// over-subscription depends on the real interleaving: seen once is
+			// seen (the observation itself is sound), but say so
+			r.AddNote("tierb_not_reproduced_on_second_run", viol[0])
+		}
+		r.Outcome("tierb-violation")
+		c.Program = resProgram(c).MRO()
+		for _, v := range viol {
+			words := strings.Fields(v)
+			for wi, w := range words {
+				if strings.HasPrefix(w, "ID.") || strings.ContainsAny(w, "[]") {
+					words[wi] = "_"
+				}
+			}
+			if len(words) > 8 {
+				words = words[:8]
+			}
+			r.Report(ev.Finding{Sig: "C12:real:" + strings.Join(words, "_"), What: fmt.Sprintf("real mrp/mrjob, --localcores=%d --localmem=%d, requests %v mapped=%d: %s", c.Cores, c.MemGB, c.Reqs, c.Mapped, v), Case: c})
+		}
+		return true
+	})
+}
